@@ -417,7 +417,7 @@ def _check_batch(rec, rng, comm, P, shape, pf, dxf, shiftf, eps, base, meta, ker
             else:
                 rec.violation(
                     "weights!=closed-form-delta",
-                    f"marker {P0[:, m]} cell {loc[1:]} (array order): kernel {D[loc]} closed form {W[loc]} err/tol {rr:.3g} {meta}",
+                    f"marker {P0[:, m]} cell {tuple(int(x) for x in loc[1:])} (array order): kernel {D[loc]} closed form {W[loc]} err/tol {rr:.3g} {meta}",
                     wit,
                 )
     rec.stat("weights_vs_closed_form", worst)
